@@ -645,11 +645,19 @@ pub fn shrink(
 
 // ---------------------------------------------------------------- stats
 
+/// Upper bound on the number of case digests kept for the distinct count (memory bound for
+/// very long runs; beyond it the reported count is a lower bound and the evidence says so).
+fn distinct_cap() -> usize {
+    std::env::var("VERIF_DISTINCT_CAP").ok().and_then(|v| v.parse().ok()).unwrap_or(48_000_000)
+}
+
 #[derive(Default)]
 pub struct Stats {
     pub evaluations: u64,
     pub nontrivial: u64,
     pub distinct: HashSet<u64>,
+    /// the digest set reached its memory bound: distinct.len() is then a lower bound
+    pub distinct_saturated: bool,
     pub labels: BTreeMap<String, u64>,
     pub counters: BTreeMap<String, u64>,
     pub known_hits: BTreeMap<String, u64>,
@@ -668,7 +676,11 @@ impl Stats {
             e.1 += 1;
             let mut d = ctx.digest;
             d.str(part);
-            self.distinct.insert(d.finish());
+            if self.distinct.len() < distinct_cap() / threads().max(1) {
+                self.distinct.insert(d.finish());
+            } else {
+                self.distinct_saturated = true;
+            }
         }
         for l in &ctx.labels {
             *self.labels.entry(l.clone()).or_insert(0) += 1;
@@ -689,7 +701,15 @@ impl Stats {
     fn merge(&mut self, o: Stats) {
         self.evaluations += o.evaluations;
         self.nontrivial += o.nontrivial;
-        self.distinct.extend(o.distinct);
+        self.distinct_saturated |= o.distinct_saturated;
+        let cap = distinct_cap();
+        for d in o.distinct {
+            if self.distinct.len() >= cap {
+                self.distinct_saturated = true;
+                break;
+            }
+            self.distinct.insert(d);
+        }
         for (k, v) in o.labels {
             *self.labels.entry(k).or_insert(0) += v;
         }
@@ -1132,6 +1152,7 @@ pub fn run_prop(prop: &Prop, tier: Tier, seed: u64) -> RunReport {
         "coverage": {
             "evaluations": stats.evaluations,
             "distinct_nontrivial": stats.distinct.len(),
+            "distinct_nontrivial_is_lower_bound": stats.distinct_saturated,
             "nontrivial_total": stats.nontrivial,
             "rule": prop.rule,
             "samples": samples,
